@@ -8,6 +8,8 @@ Decided on every CFG path:
                     packageTaskNoIncrement is used only inside generators of such bulk hand-offs;
                     Future constructors / thenImpl for task sets increment before they schedule or
                     register the continuation.
+  C02.packaged      every pool_.schedule / schedulePlaced call in a TaskSet / ConcurrentTaskSet method is
+                    given packageTask(f), never the raw functor.
   C02.done-last     every packaged wrapper decrements the counter exactly once on every path, after
                     the body, with order >= release, and the body call sits inside a catch-all;
                     FutureImplBase::run publishes kReady before it decrements the set's counter.
@@ -83,6 +85,24 @@ def run(R):
         R.ob("C02.count-first", fn, incs[0].node if incs else fn.loc, ok, "set counter += 1 before the future is scheduled/registered (%d hand-offs)" % len(hand) if ok else
              "a future tied to a task set can be scheduled before the set counts it", sitekey="future:" + fn.qname.split("::")[-1], why=WHY)
     R.need("C02.count-first", n, 8, "hand-off sites")
+
+    # ---- nothing reaches the pool uncounted ----------------------------------------------------------------
+    # every functor a task set hands to its pool goes through packageTask (which counts it and whose
+    # wrapper uncounts it); a raw functor given to pool_.schedule() runs, but wait() never hears of it
+    n = 0
+    POOLSINK = re.compile(r"^dispenso::ThreadPool::(schedule|schedulePlaced)$")
+    for fn in F.fns:
+        if fn.is_lambda or not re.match(r"^dispenso::(TaskSet|ConcurrentTaskSet|TaskSetBase)::", fn.qname):
+            continue
+        for pos, ev in fn.events():
+            if not is_call(ev, POOLSINK):
+                continue
+            n += 1
+            wrapped = any(isinstance(nn, dict) and nn.get("k") == "call" and nn.get("name") in ("packageTask",) for a in ev.get("args", []) for nn in subexprs(fn.expand_expr(a, use_block=pos.b)))
+            R.ob("C02.packaged", fn, ev, wrapped, "%s receives packageTask(f)" % ev.get("name") if wrapped else
+                 "%s is given the raw functor: the task runs but is never counted in outstandingTaskCount_, so wait()/tryWait()/the destructor can return while it is queued or running" % ev.get("name"),
+                 sitekey="%s->%s" % (fn.qname.split("::")[-1], ev.get("name")), why=WHY)
+    R.need("C02.packaged", n, 6, "pool hand-offs in TaskSet / ConcurrentTaskSet methods")
 
     # ---- decrement after the body ------------------------------------------------------------------------
     n = 0
